@@ -200,6 +200,10 @@ func (s *Sandbox) Run(goit string, argv []string, o RunOpts) *Result {
 		}
 	}
 	cmd := exec.Command(goit, argv...)
+	if n := o.ExtraEnv["VERIF_NOFILE"]; n != "" {
+		// an environment in which a process may hold at most n open files (the limit is 256 on some systems by default)
+		cmd = exec.Command("/bin/sh", append([]string{"-c", "ulimit -n " + n + "; exec \"$0\" \"$@\"", goit}, argv...)...)
+	}
 	cmd.Dir = s.W()
 	if o.Dir != "" {
 		cmd.Dir = o.Dir
@@ -346,12 +350,15 @@ type Snap struct {
 	Files map[string][]byte
 	Dirs  map[string]bool
 	Odd   map[string]string // symlinks, special files (should never appear)
+	// Modes: permission bits of files without owner write permission and of directories without owner rwx (the unusual
+	// ones: a read-only file, a directory that cannot be searched); kept and restored, not part of Diff
+	Modes map[string]os.FileMode
 	repo  *Repo
 	once  sync.Once
 }
 
 func (s *Sandbox) Snapshot() *Snap {
-	sn := &Snap{Root: s.Root, Files: map[string][]byte{}, Dirs: map[string]bool{}, Odd: map[string]string{}}
+	sn := &Snap{Root: s.Root, Files: map[string][]byte{}, Dirs: map[string]bool{}, Odd: map[string]string{}, Modes: map[string]os.FileMode{}}
 	firstOfInode := map[[2]uint64]string{}
 	for _, top := range []string{"w", "home"} {
 		base := filepath.Join(s.Root, top)
@@ -363,7 +370,13 @@ func (s *Sandbox) Snapshot() *Snap {
 			switch {
 			case fi.IsDir():
 				sn.Dirs[rel] = true
+				if fi.Mode().Perm()&0o700 != 0o700 {
+					sn.Modes[rel] = fi.Mode().Perm()
+				}
 			case fi.Mode().IsRegular():
+				if fi.Mode().Perm()&0o200 == 0 {
+					sn.Modes[rel] = fi.Mode().Perm()
+				}
 				b, err := readCached(p, fi)
 				if err != nil {
 					sn.Odd[rel] = "unreadable: " + err.Error()
@@ -493,6 +506,11 @@ func (s *Sandbox) Restore(sn *Snap) error {
 			return err
 		}
 	}
+	defer func() {
+		for f, m := range sn.Modes {
+			os.Chmod(filepath.Join(s.Root, f), m)
+		}
+	}()
 	for f, what := range sn.Odd {
 		if t, ok := strings.CutPrefix(what, "hardlink = "); ok {
 			p := filepath.Join(s.Root, f)
